@@ -347,6 +347,9 @@ class Meta:
             drop('dimension')
             n, w = rng.choice([1, 2]), rng.choice([1, 2, 3])
             nested = 'empty_dimension' in gen.AVOID or rng.random() < 0.8
+            if rng.random() < 0.3:
+                # the DIMENSION assigned explicitly: [w] for w-wide samples, [1] for plain numbers
+                kw['dimension'] = [w] if nested else [1]
             for k in ('maximum_deviation', 'standard_deviation', 'standard', 'plus_tolerance', 'minus_tolerance'):
                 if k in kw or k in lat:
                     v = plain(k)
